@@ -91,7 +91,7 @@ def run(ctx, res):
     e2e.capstone_obligations(res, 'C14_')      # the same on the script text: Props/Capstone.v
     r = ctx['rng']
     quick = ctx['tier'] == 'quick'
-    n, k = (40, 3) if quick else (2500, 8)
+    n, k = (40, 3) if quick else (600, 5)
     cases = []
     # a built-in name redefined by the user and referenced from inside another definition, for every
     # name of a pool (hash-map iteration order over definitions depends on the names) and both orders
